@@ -20,6 +20,8 @@ NUM_TOWER = {
     "frac": {"Fraction", "Rational", "Real", "Number", "Complex", "SupportsInt"},
     "float": {"float", "Real", "Number", "Complex", "SupportsInt"},
     "stddec": {"StdLibDecimal", "Number"},
+    # a Rational of unknown concrete type (may be a plain int)
+    "anyrat": {"Rational", "Real", "Number", "Complex", "SupportsInt"},
 }
 
 
@@ -376,7 +378,7 @@ class ModelsOps:
                 if e is None:
                     self.I.unsupported(node, "non-linear exponent")
                 rf = self.st.norm(l.rf).pow_sym(e)
-                if l.kind in ("int", "bool") and (e[1] != 0 or e[0] < 0):
+                if l.kind in ("int", "bool", "anyrat") and (e[1] != 0 or e[0] < 0):
                     self.flag("int-neg-pow", node, "int ** possibly negative exponent yields float")
                     return Num(rf, "float")
             elif op in (ast.Mod, ast.FloorDiv):
@@ -388,6 +390,15 @@ class ModelsOps:
             self.I.unsupported(node, f"arithmetic outside the polynomial domain ({e})")
         if "float" in kinds:
             kind = "float"
+        elif "anyrat" in kinds:
+            if kinds <= {"int", "bool", "anyrat"}:
+                if op is ast.Div:
+                    self.flag("int-div", node, "both operands may be plain ints: int / int yields a float")
+                    kind = "float"
+                else:
+                    kind = "anyrat"
+            else:
+                kind = "exact"
         elif op is ast.Div:
             if kinds <= {"int", "bool"}:
                 self.flag("int-div", node, "int / int yields float")
@@ -1116,7 +1127,8 @@ class ModelsOps:
                 t.nu = RF.atom(("nu", self.st.fresh("nu")))
         if t.num_choice == 0:
             return NONE
-        return Num(t.nu, "exact")
+        # the numeric element of a term keeps the type it was given with (a plain int stays an int)
+        return Num(t.nu, "anyrat")
 
     def term_split(self, t: TermV, args, node):
         I = self.I
